@@ -250,6 +250,59 @@ def _check_last(spec, hist, ctx, count_from=0):
     return run
 
 
+def run_reload(spec, ctx):
+    """The model object is loaded anew from a file it wrote earlier while
+    its evaluator lives on: from then on the history starts at the persisted
+    state, for that evaluator too."""
+    import os
+    import tempfile
+    if spec.differential or not spec.inputs:
+        return
+    run = Run(spec)
+    ev, model = run.ev, run.model
+    for c in spec.eval_cells[:3]:
+        lib.observe(ev.evaluate, c)
+    inputs0 = spec.initial_inputs()
+    a0 = spec.inputs[0]
+    key0 = 'C04/%s/reload' % spec.name
+    inputs = {'model': spec.name, 'kind': 'reload'}
+    with tempfile.TemporaryDirectory(prefix='xlmc_c04_') as tmp:
+        path = os.path.join(tmp, 'm.json')
+        w = lib.observe(model.persist_to_json_file, path)
+        # a what-if on the live model, then back to the persisted state
+        lib.observe(ev.set_cell_value, a0, spec.values[-1])
+        for c in spec.eval_cells[:3]:
+            lib.observe(ev.evaluate, c)
+        r = lib.observe(model.construct_from_json_file, path, True)
+    if (w, r) != ('blank', 'blank'):
+        ctx.skip('model-does-not-round-trip (C12)')
+        return
+    tags = ['model:' + spec.name, 'history:model-reloaded']
+    for step, setv in (('after-reload', None), ('then-set', spec.values[0]),
+                       ('then-set-again', spec.values[-1])):
+        cur = dict(inputs0)
+        if setv is not None:
+            lib.observe(ev.set_cell_value, a0, setv)
+            cur[a0] = setv
+        want = spec.reference(cur)
+        for c in spec.eval_cells:
+            got = lib.observe(ev.evaluate, c)
+            w_ = models.obs(want[c], lib)
+            if models.agrees(got, w_):
+                ctx.ok('%s/%s/%s#value' % (key0, step, c), got, True)
+            else:
+                ctx.fail('%s/%s/%s#value' % (key0, step, c),
+                         tags + ['op:eval', 'oracle:reference'], inputs, w_,
+                         got, True)
+            if w_ != 'raise:*':
+                ctx.check('%s/%s/%s#stored' % (key0, step, c),
+                          lib.observe(ev.get_cell_value, c), w_,
+                          tags + ['oracle:stored'], inputs, True)
+        ctx.count('transitions', len(spec.eval_cells))
+    ctx.count('states')
+    lib.clear_caches()
+
+
 SENTINEL = 990099
 
 
@@ -321,6 +374,7 @@ def plan(tier):
             depth -= 1            # large alphabets: one level less, unmerged
         plen = min(2, depth)
         shards.append({'model': spec.name, 'mode': 'short', 'plen': plen})
+        shards.append({'model': spec.name, 'mode': 'reload'})
         for prefix in itertools.product(range(len(ops)), repeat=plen):
             shards.append({'model': spec.name, 'mode': 'unmerged',
                            'prefix': list(prefix), 'depth': depth})
@@ -341,6 +395,9 @@ def plan(tier):
 def run_shard(shard, ctx):
     spec = models.by_name(shard['model'])
     ops = alphabet(spec)
+    if shard['mode'] == 'reload':
+        run_reload(spec, ctx)
+        return
     if shard['mode'] == 'short':
         for n in range(1, shard['plen']):
             for idx in itertools.product(range(len(ops)), repeat=n):
@@ -395,6 +452,9 @@ def merged_bfs(spec, ops, ctx, unmerged_depth, max_depth=None,
 
 def replay(inputs, ctx):
     spec = models.by_name(inputs['model'])
+    if inputs.get('kind') == 'reload':
+        run_reload(spec, ctx)
+        return
     hist = [tuple(o) for o in inputs['history']]
     check_last(spec, hist, ctx)
 
